@@ -4,3 +4,5 @@ import DracoProps.C07
 import DracoProps.C04
 import DracoProps.C12
 import DracoProps.C13
+import DracoProps.C01
+import DracoProps.C19
